@@ -18,12 +18,13 @@ import (
 )
 
 type c06QuicResult struct {
-	FoundAt    int // index of the datagram whose SniffUdp returned the name (-1 = never)
-	CompleteAt int // index of the datagram that completes the ClientHello (-1 = never)
-	Held       int // datagrams still withheld at the end
-	Outcome    string
-	Excluded   []string
-	NonTrivial bool
+	FoundAt     int // index of the datagram whose SniffUdp returned the name (-1 = never)
+	CompleteAt  int // index of the datagram that completes the ClientHello (-1 = never)
+	Held        int // datagrams still withheld at the end
+	Compactions int
+	Outcome     string
+	Excluded    []string
+	NonTrivial  bool
 }
 
 // c06RunQuic feeds the datagrams like control.handlePkt and checks every step.
@@ -43,11 +44,14 @@ func c06RunQuic(p *c06QuicPlan, res *c06QuicResult) (fail string) {
 		res.Excluded = append(res.Excluded, "F-C06-1")
 	}
 	var s *Sniffer
-	var forwarded [][]byte // what the relay has been handed so far (copies, like handlePkt makes)
+	nfwd := 0 // datagrams handed to the relay so far (handlePkt copies them out of Data() at that moment)
 	var covered [][2]int
-	poisoned := false // a corrupted datagram has been fed: no must-find from here on
-	skip := 1
+	poisoned := false  // a corrupted datagram has been fed since the session was last fresh: no must-find
+	skip, base := 1, 0 // Data()[skip+j-base] is ingress datagram j for j >= base (base moves with every compaction)
 	for i, d := range p.Datagrams {
+		if len(p.Flight) > i && p.Flight[i] != 0 {
+			return "HARNESS: datagrams of a second connection belong to another session and are not generated for this unit"
+		}
 		if s == nil {
 			if p.Style == "ctor" {
 				s = NewPacketSniffer(d, 5*time.Second)
@@ -65,7 +69,7 @@ func c06RunQuic(p *c06QuicPlan, res *c06QuicResult) (fail string) {
 		}
 		covered = append(covered, p.Ranges[i]...)
 		complete := c06Covered(append([][2]int(nil), covered...), len(p.Hello))
-		if complete && res.CompleteAt < 0 {
+		if complete && res.CompleteAt < base {
 			res.CompleteAt = i
 		}
 		// result typing
@@ -85,46 +89,55 @@ func c06RunQuic(p *c06QuicPlan, res *c06QuicResult) (fail string) {
 		if res.FoundAt >= 0 && (err != nil || name == "") {
 			return fmt.Sprintf("datagram %d: name was found at datagram %d but SniffUdp now returns %q, %v", i, res.FoundAt, name, err)
 		}
-		// Data() is the ingress sequence, byte for byte (header protection restored)
+		// Data() is the ingress sequence since the last compaction, byte for byte
 		data := s.Data()
-		if len(data) != skip+i+1 {
-			return fmt.Sprintf("datagram %d: Data() has %d entries, want %d", i, len(data), skip+i+1)
+		if len(data) != skip+i-base+1 {
+			return fmt.Sprintf("datagram %d: Data() has %d entries, want %d (session fresh since datagram %d)", i, len(data), skip+i-base+1, base)
 		}
 		if skip == 1 && len(data[0]) != 0 {
 			return fmt.Sprintf("datagram %d: Data()[0] of a pool-style sniffer has %d bytes, want the empty sentinel", i, len(data[0]))
 		}
-		for j := 0; j <= i; j++ {
-			if !bytes.Equal(data[skip+j], orig[j]) {
+		for j := base; j <= i; j++ {
+			if !bytes.Equal(data[skip+j-base], orig[j]) {
 				k := 0
-				for k < len(orig[j]) && k < len(data[skip+j]) && orig[j][k] == data[skip+j][k] {
+				for k < len(orig[j]) && k < len(data[skip+j-base]) && orig[j][k] == data[skip+j-base][k] {
 					k++
 				}
-				return fmt.Sprintf("REPLAY: after sniffing datagram %d, Data()[%d] differs from ingress datagram %d at byte %d (len %d vs %d)", i, skip+j, j, k, len(data[skip+j]), len(orig[j]))
+				return fmt.Sprintf("REPLAY: after sniffing datagram %d, Data()[%d] differs from ingress datagram %d at byte %d (len %d vs %d)", i, skip+j-base, j, k, len(data[skip+j-base]), len(orig[j]))
 			}
 		}
 		if !bytes.Equal(d, orig[i]) {
 			return fmt.Sprintf("datagram %d: the caller's input slice was modified", i)
 		}
-		// must find / must keep waiting
+		// must find / must keep waiting (while everything fed to the fresh session is an intact Initial)
 		if !poisoned && !v2Known {
 			if complete && p.Want != "" && res.FoundAt < 0 {
-				return fmt.Sprintf("MUST FIND: after datagram %d the CRYPTO stream holds the complete ClientHello (%d bytes, %d frames in %d packets, version %#x) carrying %q; got %q, %v",
-					i, len(p.Hello), p.NFrames, p.NPackets, p.Version, p.Want, name, err)
+				return fmt.Sprintf("MUST FIND: after datagram %d the CRYPTO stream (session fresh since datagram %d) holds the complete ClientHello (%d bytes, %d frames in %d packets, version %#x) carrying %q; got %q, %v",
+					i, base, len(p.Hello), p.NFrames, p.NPackets, p.Version, p.Want, name, err)
 			}
 			if !complete && p.Want != "" && res.FoundAt < 0 && !s.NeedMore() {
 				return fmt.Sprintf("GAVE UP: after datagram %d the ClientHello (carrying %q) is still incomplete but NeedMore() is false (err %v): handlePkt would stop waiting and route without the name", i, p.Want, err)
 			}
 		}
-		// handlePkt: hold while NeedMore, otherwise flush everything buffered before the current datagram, then the current one
+		// handlePkt: hold while NeedMore; otherwise hand on everything buffered, then the
+		// current datagram, and compact the session (it lives on as light-weight flow state).
 		if s.NeedMore() {
 			continue
 		}
-		from := len(forwarded)
-		for j := from; j <= i; j++ {
-			forwarded = append(forwarded, append([]byte(nil), data[skip+j]...))
+		nfwd = i + 1
+		if p.Compact {
+			s.CompactPacketState()
+			if dd := s.Data(); len(dd) != 1 || len(dd[0]) != 0 {
+				return fmt.Sprintf("datagram %d: after CompactPacketState Data() has %d entries / %d bytes, want the empty sentinel", i, len(dd), len(dd[0]))
+			}
+			if s.NeedMore() {
+				return fmt.Sprintf("datagram %d: NeedMore() is true right after CompactPacketState", i)
+			}
+			res.Compactions++
+			base, skip, covered, poisoned = i+1, 1, nil, false
 		}
 	}
-	res.Held = len(p.Datagrams) - len(forwarded)
+	res.Held = len(orig) - nfwd
 	switch {
 	case res.FoundAt >= 0:
 		res.Outcome = "found"
@@ -139,7 +152,7 @@ func c06RunQuic(p *c06QuicPlan, res *c06QuicResult) (fail string) {
 	}
 	// nothing may stay withheld once the outcome is final: the hello is complete, so
 	// no further datagram can change the verdict.
-	if !poisoned && !v2Known && res.CompleteAt >= 0 && res.Held > 0 {
+	if !poisoned && !v2Known && res.CompleteAt >= base && res.Held > 0 {
 		if p.Want == "" && vkKnown("F-C06-3") && !c06NoExclusion {
 			res.Excluded = append(res.Excluded, "F-C06-3")
 		} else if p.NoExt && vkKnown("F-C06-4") && !c06NoExclusion {
@@ -147,11 +160,6 @@ func c06RunQuic(p *c06QuicPlan, res *c06QuicResult) (fail string) {
 		} else {
 			return fmt.Sprintf("WITHHELD: the ClientHello is complete after datagram %d (name carried: %q) but NeedMore() stays true: %d of %d datagrams are never handed to the relay",
 				res.CompleteAt, p.Want, res.Held, len(p.Datagrams))
-		}
-	}
-	for j, f := range forwarded {
-		if !bytes.Equal(f, orig[j]) {
-			return fmt.Sprintf("REPLAY: relayed datagram %d differs from ingress datagram %d", j, j)
 		}
 	}
 	if err := s.Close(); err != nil {
@@ -175,6 +183,7 @@ func c06QuicSummary(p *c06QuicPlan, res *c06QuicResult) map[string]any {
 func TestC06_Quic(t *testing.T) {
 	rapid.Check(t, func(rt *rapid.T) {
 		p := c06GenQuicPlan(rt)
+		c06GenContinuation(rt, p, false)
 		res := &c06QuicResult{}
 		if fail := c06RunQuic(p, res); fail != "" {
 			dg := ""
@@ -189,7 +198,8 @@ func TestC06_Quic(t *testing.T) {
 		classes := append([]string{fmt.Sprintf("version:%#x", p.Version), "outcome:" + res.Outcome, "style:" + p.Style,
 			fmt.Sprintf("datagrams:%d", min(len(p.Datagrams), 5)), fmt.Sprintf("frames:%d", min(p.NFrames, 6)), fmt.Sprintf("reordered:%v", p.Reordered),
 			fmt.Sprintf("overlap:%v", p.Overlap), fmt.Sprintf("found_before_complete:%v", res.FoundAt >= 0 && (res.CompleteAt < 0 || res.FoundAt < res.CompleteAt)),
-			fmt.Sprintf("dcidlen:%d", len(p.DCID)/4*4)}, p.Classes...)
+			fmt.Sprintf("dcidlen:%d", len(p.DCID)/4*4), fmt.Sprintf("compactions:%d", min(res.Compactions, 3)),
+			fmt.Sprintf("history_after_first_flight:%d", min(len(p.Datagrams)-p.Primary, 4))}, p.Classes...)
 		key := ""
 		if res.NonTrivial {
 			h := ""
